@@ -229,8 +229,15 @@ class PKONESerialCommunicator(BaseSerialCommunicator):
             if not msg:
                 continue
 
-            if msg.decode() not in self.ignored_messages:
-                self.platform.process_received_message(msg.decode())
+            try:
+                msg = msg.decode()
+            except UnicodeDecodeError:
+                # line noise: skip this frame and keep decoding what follows
+                self.log.warning("Interference / bad data received, skipping: %s", msg)
+                continue
+
+            if msg not in self.ignored_messages:
+                self.platform.process_received_message(msg)
 
     def send(self, msg):
         """Send a message to the remote processor over the serial connection.
